@@ -1049,6 +1049,13 @@ func (fc *FuncCtx) debugName(in ssa.Instruction, vars map[string]TV) {
 			}
 			return
 		}
+		if mi, isMI := d.X.(*ssa.MakeInterface); isMI && !types.IsInterface(obj.Type()) {
+			// a use of the variable in an interface position (`T{Field: x}`): go/ssa attaches the
+			// converted value to the identifier; the variable itself is the value that was converted
+			if inner, ok := fc.val[mi.X]; ok {
+				tv = inner
+			}
+		}
 		vars[obj.Name()] = tv
 	case *ssa.Alloc:
 		if d.Comment != "" {
